@@ -340,12 +340,17 @@ func (vc *VC) execFor(x *ast.ForStmt, st *State, label string) *State {
 	fr.loops = append(fr.loops, lc)
 	end := vc.execBlock(x.Body.List, body)
 	fr.loops = fr.loops[:len(fr.loops)-1]
-	back := vc.mergeStates(append([]*State{end}, lc.continues...))
-	if back != nil && x.Post != nil {
-		back = vc.execStmt(x.Post, back)
+	// every back edge is checked on its own (no phi terms in the goal)
+	for _, back := range append([]*State{end}, lc.continues...) {
+		if back == nil || back.pc.S == "false" {
+			continue
+		}
+		if x.Post != nil {
+			back = vc.execStmt(x.Post, back)
+		}
+		vc.checkInvariants(lr, back, "inv-preserve")
+		vc.checkDecreases(lr, before, back)
 	}
-	vc.checkInvariants(lr, back, "inv-preserve")
-	vc.checkDecreases(lr, before, back)
 	exit := head.clone()
 	exit.pc = vc.definePC(tAnd(head.pc, tNot(cond)))
 	return vc.mergeStates(append([]*State{exit}, lc.breaks...))
@@ -402,11 +407,23 @@ func (vc *VC) execRange(x *ast.RangeStmt, st *State, label string) *State {
 		fr.loops = append(fr.loops, lc)
 		end := vc.execBlock(x.Body.List, body)
 		fr.loops = fr.loops[:len(fr.loops)-1]
-		back := vc.mergeStates(append([]*State{end}, lc.continues...))
-		if back != nil {
-			advance(back)
-			vc.checkInvariants(lr, back, "inv-preserve")
-			vc.checkDecreases(lr, before, back)
+		// every back edge is checked on its own (no phi terms in the goal)
+		var back *State
+		for _, b := range append([]*State{end}, lc.continues...) {
+			if b == nil || b.pc.S == "false" {
+				continue
+			}
+			saved := map[string]Value{}
+			for k, v := range lr.ghost {
+				saved[k] = v
+			}
+			advance(b)
+			vc.checkInvariants(lr, b, "inv-preserve")
+			vc.checkDecreases(lr, before, b)
+			for k, v := range saved {
+				lr.ghost[k] = v
+			}
+			back = b
 		}
 		return back, lc.breaks
 	}
